@@ -370,3 +370,217 @@ Proof.
   destruct (left_child_val x (ni_height ni) ltac:(lia) ltac:(lia)) as [-> ->].
   destruct (right_child_val x ltac:(lia)) as [-> ->]. split; reflexivity.
 Qed.
+
+(* ================================================================== leafs as nodes *)
+Lemma ncount_succ n : 0 <= n -> ncount n + 1 <= ncount (n + 1).
+Proof. intros. unfold ncount. pose proof (count_ones_succ_le n H). lia. Qed.
+
+Lemma ncount_mono_strict i d : 0 <= i -> 0 <= d -> ncount i + d <= ncount (i + d).
+Proof.
+  intros Hi Hd. pattern d. apply natlike_ind; [rewrite !Z.add_0_r; lia| |exact Hd].
+  intros e He IH. pose proof (ncount_succ (i + e) ltac:(lia)). replace (i + Z.succ e) with (i + e + 1) by lia. lia.
+Qed.
+
+Lemma ncount_lt i n : 0 <= i < n -> ncount i + 1 <= ncount n.
+Proof. intros. pose proof (ncount_mono_strict i (n - i) ltac:(lia) ltac:(lia)). replace (i + (n - i)) with n in * by lia. lia. Qed.
+
+(* the node of leaf i inside a perfect tree: height 0, first leaf i, right lineage = trailing ones of i - l *)
+Lemma desc_leaf h : forall o l i r, l <= i < l + tleafs h -> 0 <= r ->
+  exists t : nat, (t <= h)%nat /\ (i - l) mod 2 ^ (Z.of_nat t + 1) = 2 ^ Z.of_nat t - 1 /\
+    desc h o l (t_leaf_node h o l i) r = Some ((if Nat.eqb t h then r + Z.of_nat h else Z.of_nat t), 0, i).
+Proof.
+  induction h as [|h IH]; intros o l i r Hi Hr.
+  - change (tleafs 0) with 1 in Hi. assert (i = l) by lia. subst i. exists O. split; [lia|].
+    split; [rewrite Z.sub_diag; reflexivity|]. cbn [t_leaf_node desc Nat.eqb]. change (tsize 0) with 1.
+    rewrite Z.eqb_refl. f_equal. f_equal. f_equal. lia.
+  - rewrite tleafs_S in Hi. pose proof (tleafs_pos h) as Hp. pose proof (tsize_pos h) as Hps.
+    cbn [t_leaf_node]. rewrite desc_S. rewrite tsize_S.
+    destruct (Z.ltb_spec i (l + tleafs h)) as [Hl|Hg].
+    + pose proof (t_leaf_node_val h o l i ltac:(lia)) as V.
+      pose proof (ncount_lt_tsize h (i - l) ltac:(lia)) as B. pose proof (ncount_nonneg (i - l) ltac:(lia)) as B0.
+      destruct (Z.eqb_spec (t_leaf_node h o l i) (o + (2 * tsize h + 1))); [lia|].
+      destruct (Z.leb_spec (t_leaf_node h o l i) (o + tsize h)); [|lia].
+      destruct (IH o l i 0 ltac:(lia) ltac:(lia)) as (t & Ht & Em & D).
+      exists t. split; [lia|]. split; [exact Em|]. rewrite D.
+      destruct (Nat.eqb_spec t h); destruct (Nat.eqb_spec t (S h)); try lia; f_equal; f_equal; f_equal; lia.
+    + pose proof (t_leaf_node_val h (o + tsize h) (l + tleafs h) i ltac:(lia)) as V.
+      pose proof (ncount_lt_tsize h (i - (l + tleafs h)) ltac:(lia)) as B.
+      pose proof (ncount_nonneg (i - (l + tleafs h)) ltac:(lia)) as B0.
+      destruct (Z.eqb_spec (t_leaf_node h (o + tsize h) (l + tleafs h) i) (o + (2 * tsize h + 1))); [lia|].
+      destruct (Z.leb_spec (t_leaf_node h (o + tsize h) (l + tleafs h) i) (o + tsize h)); [lia|].
+      destruct (IH (o + tsize h) (l + tleafs h) i (r + 1) ltac:(lia) ltac:(lia)) as (t & Ht & Em & D).
+      rewrite D. rewrite tleafs_pow in *.
+      pose proof (pow2_pos (Z.of_nat t) ltac:(lia)) as Hpt.
+      destruct (Nat.eqb_spec t h) as [->|Hne].
+      * exists (S h). split; [lia|]. rewrite Nat.eqb_refl.
+        assert (2 ^ (Z.of_nat h + 1) = 2 * 2 ^ Z.of_nat h) as P1 by (apply pow2_succ; lia).
+        rewrite Z.mod_small in Em by lia.
+        split; [|f_equal; f_equal; f_equal; lia].
+        rewrite Nat2Z.inj_succ, <- Z.add_1_r. rewrite Z.mod_small; rewrite ?(pow2_succ (Z.of_nat h + 1)) by lia; lia.
+      * exists t. split; [lia|]. destruct (Nat.eqb_spec t (S h)); [lia|]. split; [|reflexivity].
+        rewrite <- Em. replace (i - l) with (i - (l + 2 ^ Z.of_nat h) + 2 ^ Z.of_nat h) by lia.
+        rewrite (pow2_split (Z.of_nat t + 1) (Z.of_nat h)) by lia. apply Z_mod_plus_full.
+Qed.
+
+Theorem leaf_node_located n i : 0 <= i < n -> n < 2 ^ 64 -> ncount n < 2 ^ 64 -> i < 2 ^ 63 ->
+  exists pk t ni, f_locate n (leaf_index_to_node_index i) = Some (pk, t, ni) /\
+    ni_height ni = 0 /\ ni_first_leaf ni = i /\
+    right_lineage_length_from_leaf_index_ok i = true /\ ni_rll ni = right_lineage_length_from_leaf_index i /\
+    desc 64 0 0 (leaf_index_to_node_index i) 0 = Some (ni_rll ni, 0, i).
+Proof.
+  intros Hi Hn Hc Hi63.
+  destruct (leaf_index_to_node_index_val i ltac:(lia)) as [_ V]. fold (ncount i) in V.
+  pose proof (ncount_lt i n Hi) as Hlt. pose proof (ncount_nonneg i ltac:(lia)) as H0.
+  destruct (node_located n (leaf_index_to_node_index i) ltac:(lia) Hc ltac:(lia)) as (pk & t & ni & E & L & D & C & _).
+  exists pk, t, ni. split; [exact E|].
+  destruct (desc_leaf 64 0 0 i 0 ltac:(rewrite tleafs_64; lia) ltac:(lia)) as (tt & Ht & Em & D').
+  rewrite t_leaf_node_val in D' by (rewrite tleafs_64; lia). rewrite Z.sub_0_r, Z.add_0_l in D'. rewrite <- V in D'.
+  rewrite D in D'. injection D' as E1 E2 E3. rewrite Z.sub_0_r in Em.
+  assert (tt <> 64%nat) as Hne.
+  { intros ->. change (2 ^ (Z.of_nat 64 + 1)) with (2 ^ 65) in Em. rewrite Z.mod_small in Em by (pow_lits; lia).
+    change (2 ^ Z.of_nat 64) with (2 ^ 64) in Em. pow_lits. lia. }
+  destruct (Nat.eqb_spec tt 64); [contradiction|].
+  destruct (right_lineage_length_from_leaf_index_char tt i ltac:(lia) ltac:(pow_lits; lia) Em) as [Ok Val].
+  split; [exact E2|]. split; [exact E3|]. split; [exact Ok|]. split; [lia|].
+  rewrite D. f_equal. f_equal; [f_equal|]; assumption.
+Qed.
+
+Theorem spec_leaf_rll_correct n i : 0 <= i < n -> n < 2 ^ 64 -> ncount n < 2 ^ 64 -> i < 2 ^ 63 ->
+  spec_leaf_rll n i = Some (right_lineage_length_from_leaf_index i).
+Proof.
+  intros Hi Hn Hc Hi63. unfold spec_leaf_rll.
+  rewrite (spec_leaf_index_to_node_index_correct n i) by lia.
+  destruct (leaf_node_located n i Hi Hn Hc Hi63) as (pk & t & ni & E & _ & _ & _ & R & _).
+  rewrite E. f_equal. exact R.
+Qed.
+
+(* ================================================================== node_index_to_leaf_index *)
+Lemma n2l_loop_desc h : forall fuel o l x r acc a c, (h < fuel)%nat -> 0 <= o -> o + tsize h < 2 ^ 64 ->
+  desc h o l x r = Some (a, 0, c) -> 0 <= acc -> acc + tleafs h <= 2 ^ 64 ->
+  n2l_loop fuel x (o + tsize h) (Z.of_nat h) acc = Some (acc + (c - l)).
+Proof.
+  induction h as [|h IH]; intros fuel o l x r acc a c Hf Ho Hb D Hacc Hab.
+  - destruct fuel as [|f]; [lia|]. cbn [n2l_loop]. cbn [Z.of_nat Z.eqb].
+    cbn [desc] in D. destruct (x =? o + tsize 0); [|discriminate]. injection D as _ <-. f_equal. lia.
+  - destruct fuel as [|f]; [lia|]. cbn [n2l_loop]. rewrite desc_S in D.
+    pose proof (tsize_pos h) as Hp. pose proof (tleafs_pos h) as Hpl.
+    assert (P2 : 2 ^ Z.of_nat (S h) = tsize h + 1) by (rewrite <- tleafs_pow, tleafs_S, tsize_tleafs; lia).
+    pose proof (tsize_lt64_inv (S h) ltac:(lia)) as H63.
+    destruct (Z.eqb_spec x (o + tsize (S h))); [injection D as _ D0 _; lia|].
+    rewrite tsize_S, tleafs_S in *.
+    destruct (Z.eqb_spec (Z.of_nat (S h)) 0); [lia|].
+    destruct (left_child_val (o + (2 * tsize h + 1)) (Z.of_nat (S h)) ltac:(lia) ltac:(lia)) as [-> ->].
+    rewrite P2. replace (o + (2 * tsize h + 1) - (tsize h + 1)) with (o + tsize h) by lia.
+    assert (Eh : wsub 32 (Z.of_nat (S h)) 1 = Z.of_nat h) by (rewrite wsub32_small by (pow_lits; lia); lia).
+    rewrite Eh. unfold sub_ok. destruct (Z.leb_spec 1 (Z.of_nat (S h))); [|lia].
+    destruct (Z.leb_spec x (o + tsize h)).
+    + eapply IH; [lia|lia|lia|exact D|lia|lia].
+    + destruct (right_child_val (o + (2 * tsize h + 1)) ltac:(lia)) as [-> ->].
+      rewrite shift_ok_64, wshl64_1 by lia. rewrite <- tleafs_pow.
+      unfold add_ok. destruct (Z.ltb_spec (acc + tleafs h) (2 ^ 64)); [|lia].
+      rewrite wadd64_small by lia.
+      replace (o + (2 * tsize h + 1) - 1) with (o + tsize h + tsize h) by lia.
+      replace (acc + (c - l)) with (acc + tleafs h + (c - (l + tleafs h))) by lia.
+      eapply IH; [lia|lia|lia|exact D|lia|lia].
+Qed.
+
+Theorem node_index_to_leaf_index_desc x a b c : 1 <= x < 2 ^ 64 -> desc 64 0 0 x 0 = Some (a, b, c) ->
+  mm_node_index_to_leaf_index x = Some (if b =? 0 then Some c else None).
+Proof.
+  intros Hx D. unfold mm_node_index_to_leaf_index.
+  destruct (rll_and_height_desc x Hx) as (a' & b' & c' & D' & L). rewrite D in D'. injection D' as <- <- <-.
+  rewrite L. destruct (Z.eqb_spec b 0) as [->|]; [|reflexivity]. cbn [negb].
+  destruct (leftmost_ancestor_val x Hx) as (-> & H & HH & -> & Hr).
+  pose proof (tleafs_pos H). pose proof (tsize_lt64 H HH).
+  replace 64%nat with ((64 - H) + H)%nat in D by lia. rewrite desc_left_spine in D by lia.
+  pose proof (n2l_loop_desc H 65 0 0 x 0 0 a c ltac:(lia) ltac:(lia) ltac:(lia) D ltac:(lia)) as N.
+  change (0 + tsize H) with (tsize H) in N. rewrite N; [f_equal; f_equal; lia|].
+  pose proof (tleafs_mono H 63 HH). rewrite tleafs_63 in *. pow_lits. lia.
+Qed.
+
+Theorem node_index_to_leaf_index_correct n x : 0 <= n < 2 ^ 64 -> ncount n < 2 ^ 64 -> 1 <= x <= ncount n ->
+  spec_node_index_to_leaf_index n x = mm_node_index_to_leaf_index x.
+Proof.
+  intros Hn Hc Hx. destruct (node_located n x Hn Hc Hx) as (pk & t & ni & E & _ & D & _).
+  unfold spec_node_index_to_leaf_index. rewrite E.
+  rewrite (node_index_to_leaf_index_desc x _ _ _ ltac:(lia) D). destruct (ni_height ni =? 0); reflexivity.
+Qed.
+
+(* ================================================================== right_lineage_length_from_node_index *)
+Lemma rll_node_rec_desc : forall fuel x, 1 <= x < 2 ^ 64 -> Z.log2 x + 1 < Z.of_nat fuel ->
+  exists a b c, desc 64 0 0 x 0 = Some (a, b, c) /\ rll_node_rec fuel x = Some a.
+Proof.
+  induction fuel as [|f IH]; intros x Hx Hf; [pose proof (Z.log2_nonneg x); lia|].
+  pose proof (Z.log2_spec x ltac:(lia)) as Hl. pose proof (Z.log2_nonneg x) as Hn.
+  assert (Hl63 : Z.log2 x < 64) by (apply Z.log2_lt_pow2; lia).
+  set (lg := Z.log2 x) in *. change (Z.succ lg) with (lg + 1) in Hl.
+  pose proof (pow2_succ lg ltac:(lia)) as Hps. pose proof (pow2_pos lg ltac:(lia)) as Hpp.
+  assert (Hp64 : 2 ^ (lg + 1) <= 2 ^ 64) by (apply pow2_le; lia).
+  assert (Hp128 : 2 ^ 64 < 2 ^ 128) by reflexivity.
+  cbn [rll_node_rec]. unfold leading_zeros, bitlen. destruct (Z.eqb_spec x 0); [lia|]. fold lg.
+  unfold sub_ok at 1. destruct (Z.leb_spec (64 - (lg + 1)) 64); [|lia].
+  assert (E1 : wsub 32 64 (64 - (lg + 1)) = lg + 1) by (rewrite wsub32_small by (pow_lits; lia); lia).
+  rewrite E1. unfold shift_ok at 1. destruct (Z.leb_spec 0 (lg + 1)); [|lia]. destruct (Z.ltb_spec (lg + 1) 128); [|lia].
+  cbn [andb].
+  assert (E2 : wshl 128 1 (lg + 1) = 2 ^ (lg + 1)) by (unfold wshl; rewrite Z.mul_1_l; apply wrap_small; lia).
+  rewrite E2. unfold sub_ok at 1. destruct (Z.leb_spec x (2 ^ (lg + 1))); [|lia].
+  assert (E3 : ucast 64 (wsub 128 (2 ^ (lg + 1)) x) = 2 ^ (lg + 1) - x).
+  { unfold ucast, wsub. rewrite (wrap_small 128) by lia. apply wrap_small. lia. }
+  rewrite E3.
+  (* the perfect tree of height lg at offset 0 contains x *)
+  set (hb := Z.to_nat lg).
+  assert (Ts : tsize hb = 2 ^ (lg + 1) - 1) by (rewrite tsize_pow; unfold hb; rewrite Z2Nat.id by lia; reflexivity).
+  assert (Spine : desc 64 0 0 x 0 = desc hb 0 0 x 0).
+  { replace 64%nat with ((64 - hb) + hb)%nat by (unfold hb; lia). apply desc_left_spine. lia. }
+  destruct (Z.ltb_spec (lg + 1) (2 ^ (lg + 1) - x)) as [Hfar|Hnear].
+  - (* off the right edge: same position in the left subtree *)
+    assert (Hlg : 2 <= lg).
+    { destruct (Z.eq_dec lg 0) as [e|]; [rewrite e in *; change (2 ^ (0 + 1)) with 2 in *; lia|].
+      destruct (Z.eq_dec lg 1) as [e|]; [rewrite e in *; change (2 ^ (1 + 1)) with 4 in *; change (2 ^ 1) with 2 in *; lia|]. lia. }
+    assert (E4 : wsub 32 (lg + 1) 1 = lg) by (rewrite wsub32_small by (pow_lits; lia); lia).
+    unfold sub_ok at 1. destruct (Z.leb_spec 1 (lg + 1)); [|lia]. rewrite E4.
+    rewrite shift_ok_64, wshl64_1 by lia. unfold sub_ok at 1. destruct (Z.leb_spec (2 ^ lg) x); [|lia].
+    rewrite wsub64_small by lia. unfold add_ok. destruct (Z.ltb_spec (x - 2 ^ lg + 1) (2 ^ 64)); [|lia].
+    rewrite wadd64_small by lia.
+    destruct hb as [|h'] eqn:Ehb; [unfold hb in Ehb; lia|].
+    assert (Ts' : tsize h' = 2 ^ lg - 1) by (rewrite tsize_S in Ts; lia).
+    assert (Hh' : Z.of_nat h' = lg - 1) by (unfold hb in Ehb; lia).
+    rewrite (desc_S h') in Spine. rewrite !Z.add_0_l in Spine.
+    destruct (Z.eqb_spec x (tsize (S h'))); [lia|].
+    destruct (Z.leb_spec x (tsize h')); [lia|].
+    destruct (desc_total h' (tsize h') (tleafs h') x 1 ltac:(lia) ltac:(lia)) as (a & b & c & D & _).
+    rewrite D in Spine.
+    pose proof (desc_shift h' (tsize h') (tleafs h') x 1 0 0 0 a b c ltac:(lia) ltac:(lia) D) as Sh.
+    assert (Hx' : 1 <= x - 2 ^ lg + 1 < 2 ^ 64) by lia.
+    assert (Hlog : Z.log2 (x - 2 ^ lg + 1) < lg).
+    { apply Z.log2_lt_pow2; lia. }
+    destruct (IH (x - 2 ^ lg + 1) Hx' ltac:(lia)) as (a' & b' & c' & D' & R).
+    replace (x - tsize h' + 0) with (x - 2 ^ lg + 1) in Sh by lia.
+    replace 64%nat with ((64 - h') + h')%nat in D' by lia. rewrite desc_left_spine in D' by lia.
+    rewrite Sh in D'. injection D' as <- <- <-.
+    exists a, b, c. split; [exact Spine|exact R].
+  - (* on the right edge *)
+    unfold sub_ok. destruct (Z.leb_spec 1 (2 ^ (lg + 1) - x)); [|lia].
+    assert (E5 : ucast 32 (wsub 64 (2 ^ (lg + 1) - x) 1) = 2 ^ (lg + 1) - x - 1).
+    { unfold ucast. rewrite wsub64_small by lia. apply wrap_small. pow_lits. lia. }
+    rewrite E5.
+    destruct (desc_right_spine hb 0 0 0 (Z.to_nat (2 ^ (lg + 1) - x - 1)) ltac:(unfold hb; lia)) as (c & D).
+    rewrite Z2Nat.id in D by lia. replace (0 + tsize hb - (2 ^ (lg + 1) - x - 1)) with x in D by lia.
+    rewrite <- Spine in D. eexists _, _, c. split; [exact D|]. f_equal. lia.
+Qed.
+
+Theorem rll_from_node_index_desc x : 1 <= x < 2 ^ 64 ->
+  exists a b c, desc 64 0 0 x 0 = Some (a, b, c) /\ mm_right_lineage_length_from_node_index x = Some a.
+Proof.
+  intros Hx. unfold mm_right_lineage_length_from_node_index. apply rll_node_rec_desc; [exact Hx|].
+  assert (Z.log2 x < 64) by (apply Z.log2_lt_pow2; lia). lia.
+Qed.
+
+Theorem rll_from_node_index_correct n x pk t ni : 0 <= n < 2 ^ 64 -> ncount n < 2 ^ 64 -> 1 <= x <= ncount n ->
+  f_locate n x = Some (pk, t, ni) -> mm_right_lineage_length_from_node_index x = Some (ni_rll ni).
+Proof.
+  intros Hn Hc Hx E. destruct (node_located n x Hn Hc Hx) as (pk' & t' & ni' & E' & _ & D & _).
+  rewrite E in E'. injection E' as <- <- <-.
+  destruct (rll_from_node_index_desc x ltac:(lia)) as (a & b & c & D' & R). rewrite D in D'. injection D' as <- <- <-.
+  exact R.
+Qed.
